@@ -53,7 +53,7 @@ def nontrivial(scn):
 
 
 def canonical_text(scn):
-    return json.dumps({k: scn.get(k) for k in ("names", "entries", "rounds", "force_async", "via_any", "same_free_names")}, sort_keys=True)
+    return json.dumps({k: scn.get(k) for k in ("names", "entries", "rounds", "force_async", "via_any", "same_free_names", "falsy_callables")}, sort_keys=True)
 
 
 # ----------------------------------------------------------------------------- one batch
@@ -80,6 +80,13 @@ def process(scns):
         obs = out.get(s["id"])
         model = R.parse_model(obs, lay) if obs is not None else None
         fails, diffs = R.judge(s, lay, impl, spec, model)
+        if impl.get("second") is not None:
+            want2 = R.second_instance_expectation(s)
+            if want2 is not None and impl["second"] != want2:
+                fails.append(f"a second instance of the class over the default model, without listeners: "
+                             f"instantiation gave {impl['second']}, expected {want2} (names without a provider are "
+                             f"rejected per instance, at instantiation)")
+            stats["second_instances"] = stats.get("second_instances", 0) + 1
         if model is not None:
             diffs += R.check_preps(s, model)
             stats["model_compared"] += 1
